@@ -89,7 +89,7 @@ def micro_jobs(tier):
         else:
             J.append(Job('um_' + fn, um_tu(set(loops)), 'h_' + fn, enforce=[enforce or fn], replace=list(replace),
                          loops=True, functions=[(UM_C, fn)], klass='proved', timeout=timeout or 3600,
-                         expect_loop_contracts=(2 * nloop if nloop else None), split=0, **kw))
+                         expect_loop_contracts=(2 * nloop if nloop else None), split=(0 if loops else 12), **kw))
     NOT_YET = []
 
     def DEFER(fn, *a, **k):
